@@ -350,3 +350,31 @@ Proof.
   unfold exec. simpl. destruct (interp fuel) as [rec rec_do]. simpl. unfold wrapped.
   destruct (spec_do rec rec_do fuel a _) as [s1 r1]. intros [= <- <-]. exists (st_ev s1). reflexivity.
 Qed.
+
+(* ---------- conditions given as literal text: exactly strconv.ParseBool's twelve spellings *)
+Lemma existsb_eqb_In s l : existsb (String.eqb s) l = true <-> In s l.
+Proof.
+  rewrite existsb_exists. split.
+  - intros [x [Hx E]]. apply String.eqb_eq in E. now subst.
+  - intros H. exists s. split; [exact H|apply String.eqb_refl].
+Qed.
+
+Theorem parse_bool_true s :
+  parse_bool s = Some true <-> In s ["1"; "t"; "T"; "TRUE"; "true"; "True"]%string.
+Proof.
+  unfold parse_bool. rewrite <- existsb_eqb_In.
+  destruct (existsb (String.eqb s) ["1"; "t"; "T"; "TRUE"; "true"; "True"]%string); [tauto|].
+  destruct (existsb (String.eqb s) ["0"; "f"; "F"; "FALSE"; "false"; "False"]%string); split; congruence.
+Qed.
+
+Theorem parse_bool_false s :
+  parse_bool s = Some false <-> In s ["0"; "f"; "F"; "FALSE"; "false"; "False"]%string.
+Proof.
+  unfold parse_bool. rewrite <- (existsb_eqb_In s ["0"; "f"; "F"; "FALSE"; "false"; "False"]%string).
+  destruct (existsb (String.eqb s) ["1"; "t"; "T"; "TRUE"; "true"; "True"]%string) eqn:E1.
+  - split; [congruence|]. intros E0. exfalso.
+    apply existsb_eqb_In in E1, E0. simpl in E1, E0.
+    repeat (destruct E1 as [E1|E1]; [subst s; repeat (destruct E0 as [E0|E0]; [discriminate|]); contradiction|]).
+    contradiction.
+  - destruct (existsb (String.eqb s) ["0"; "f"; "F"; "FALSE"; "false"; "False"]%string); split; congruence.
+Qed.
